@@ -1147,7 +1147,10 @@ class Executor:
         elif op in ('/', '%'):
             nz = simp(ys != z3.BitVecVal(0, w))
             self.oblige(st, 'div0', 'integer divide by zero', pos, nz)
-            if sg:
+            nr = self.narrow_div(st, op, xs, y, w) if cy and w >= 32 else None
+            if nr is not None:
+                r = nr
+            elif sg:
                 r = xs / ys if op == '/' else z3.SRem(xs, ys)
             else:
                 r = z3.UDiv(xs, ys) if op == '/' else z3.URem(xs, ys)
@@ -1166,6 +1169,34 @@ class Executor:
         else:
             raise Unsupported('int op ' + op)
         return simp(r)
+
+    def implied(self, st, c):
+        """True iff the path condition implies c (solver says pc & !c is unsat)"""
+        return not self.feasible(st, bnot(c))
+
+    def narrow_div(self, st, op, xs, y, w):
+        """x / const or x % const where the path condition bounds x to k < w bits: do the division at k bits
+        (a 64-bit bvsdiv by a constant stalls bit-blasting; the narrowing is justified by a solver query, not assumed)"""
+        if y == 0 or y >> (w - 1):
+            return None
+        best = None
+        for k in (32, 24, 16, 8):
+            if k >= w:
+                continue
+            if self.implied(st, z3.ULT(xs, z3.BitVecVal(1 << k, w))):
+                best = k
+            else:
+                break
+        if best is None:
+            return None
+        k = best
+        xk = z3.Extract(k - 1, 0, xs)
+        if y >= (1 << k):
+            return z3.BitVecVal(0, w) if op == '/' else xs
+        yk = z3.BitVecVal(y, k)
+        rk = z3.UDiv(xk, yk) if op == '/' else z3.URem(xk, yk)
+        self.stats['narrowed'] = self.stats.get('narrowed', 0) + 1
+        return z3.ZeroExt(w - k, rk)
 
     def op_Convert(self, fn, ins, env, st):
         x = self.operand(ins['x'], env)
@@ -2035,6 +2066,24 @@ def install_default_intrinsics(ex):
     I['fmt.Sprintf'] = opaque('fmt.Sprintf')
     I['fmt.Sprint'] = opaque('fmt.Sprint')
     I['fmt.Errorf'] = opaque('error')
+
+    def bits_mul64(ex, st, args, pos):
+        x, y = args
+        if isinstance(x, int) and isinstance(y, int):
+            p = x * y
+            return ((p >> 64) & (MAXU - 1), p & (MAXU - 1)), st
+        p = z3.ZeroExt(64, bv(x, 64)) * z3.ZeroExt(64, bv(y, 64))
+        return (simp(z3.Extract(127, 64, p)), simp(z3.Extract(63, 0, p))), st
+    I['math/bits.Mul64'] = bits_mul64
+
+    def bits_add64(ex, st, args, pos):
+        x, y, c = args
+        if all(isinstance(v, int) for v in args):
+            s = x + y + c
+            return (s & (MAXU - 1), s >> 64), st
+        s = z3.ZeroExt(1, bv(x, 64)) + z3.ZeroExt(1, bv(y, 64)) + z3.ZeroExt(1, bv(c, 64))
+        return (simp(z3.Extract(63, 0, s)), simp(z3.ZeroExt(63, z3.Extract(64, 64, s)))), st
+    I['math/bits.Add64'] = bits_add64
 
     def os_exit(ex, st, args, pos):
         ex.events.append(('exit', st.pc, pos))
